@@ -30,6 +30,12 @@ pub trait HistoryModel: Sync {
 
 /// BFS up to `max_depth`; dedup by key when `dedup`. Counts states, transitions, traces.
 pub fn explore<M: HistoryModel>(ctx: &Ctx, label: &str, m: &M, max_depth: usize, dedup: bool, st: &mut Stats) {
+    explore_with_threads(ctx, ctx.threads, label, m, max_depth, dedup, st)
+}
+
+/// Same as [`explore`] with an explicit worker count (use 1 when many independent explorations are
+/// themselves run in parallel).
+pub fn explore_with_threads<M: HistoryModel>(ctx: &Ctx, threads: usize, label: &str, m: &M, max_depth: usize, dedup: bool, st: &mut Stats) {
     let ops = m.ops();
     let mut seen: HashSet<M::Key> = HashSet::new();
     let mut frontier: Vec<Vec<M::Op>> = vec![vec![]];
@@ -58,7 +64,7 @@ pub fn explore<M: HistoryModel>(ctx: &Ctx, label: &str, m: &M, max_depth: usize,
         let results: Mutex<Vec<(usize, Step<M::Key>)>> = Mutex::new(Vec::with_capacity(n));
         let next = AtomicUsize::new(0);
         std::thread::scope(|s| {
-            for _ in 0..ctx.threads.min(n.max(1)) {
+            for _ in 0..threads.max(1).min(n.max(1)) {
                 s.spawn(|| {
                     let mut local = vec![];
                     loop {
